@@ -1,28 +1,34 @@
 """C08 - loss-recovery and congestion accounting stay consistent.
 
 Part (i), this file: explicit-state BFS (E2) over the REAL `QuicPacketRecovery`
-with its `QuicPacketSpace`s and the Reno / CUBIC congestion controllers.  Every
-transition is executed on a fresh deep copy (pickle round trip: exact for these
-pure-Python objects) of the parent state; nothing is modelled.
+with its `QuicPacketSpace`s and the Reno / CUBIC congestion controllers.  A
+state is rebuilt in the worker by replaying its history on fresh real objects;
+every transition is then executed on its own private deep copy (pickle round
+trip: exact for these pure-Python objects) of that state.  Nothing is modelled.
 
 Alphabet (simplest first; the driver calls the API exactly as QuicConnection
 does - keyword arguments, `packet.sent_time = now` before `on_packet_sent`,
-non-empty RangeSet for `on_ack_received`, `discard_space` at most once per
-space and no send/ack in a discarded space, timer fired only when
+non-empty RangeSet for `on_ack_received`, `peer_completed_address_validation`
+set on an ACK in the Handshake / 1-RTT space, `discard_space` at most once per
+space and no send/ack in a discarded space, timeout fired only when
 `get_loss_detection_time()` is not None and <= now):
 
   send(space, kind, size)     kind in ack_only / eliciting / crypto / padding
                               (the four flag combinations the packet builder
-                              can produce), size in {40, 1200}
+                              can produce); size in {40, 1200}: a free choice
+                              in the "sizes" runs, alternating with the packet
+                              number (1200, 40, ...) in the "alt" runs, which
+                              reach one level more for the same cost
   adv(dt)                     virtual time += dt, dt in {1 ms, 120 ms, 600 ms}
-                              (CUBIC also 2.5 s: idle reset); dt = 0 is the
-                              identity (events may share an instant)
+                              (CUBIC: 2.5 s instead of 600 ms, > idle reset);
+                              never twice in a row; dt = 0 is the identity
+                              (events may share an instant)
   to_timer                    virtual time = loss-detection time (exact expiry)
   fire                        on_loss_detection_timeout(now)  (loss timer / PTO)
   ack(space, R, ack_delay)    EVERY non-empty range set R over {0..N+1},
                               N = packets sent so far in that space (never-sent
-                              N, N+1 and already acked numbers included),
-                              ack_delay in {0, 25 ms}
+                              N, N+1 and already acked numbers included);
+                              ack_delay 0, and 25 ms when max(R) is tracked
   discard(space)              discard_space + space.discarded = True
   resched                     reschedule_data(now) (the connection calls it at
                               most once, `_crypto_retransmitted`)
@@ -35,23 +41,25 @@ Oracle after every call (property C08, first sentence):
   get_loss_detection_time() finite while ack-eliciting packets are tracked;
   no call raises.
 
-State key (dedup): digest of the *complete* behaviour-relevant concrete state:
-all fields of the recovery object, of the controller (generic `vars()`), of the
-RTT monitor, per space the ordered tracked packets with all flags / size /
-exact sent time / fire count, largest acked, loss time, counters, plus the
-harness state (virtual time in integer microseconds, next packet numbers,
-discard flags).  No rounding, no rank abstraction: two states with equal key
-are equal objects as far as any recovery code path can observe, hence have
-equal futures.  Excluded, with argument: the pacer (only written by the calls
-made here, `update_rate` overwrites it from (cwnd, srtt) and nothing reads it
-back into recovery or controller), receive-side fields of QuicPacketSpace (not
-touched).  Absolute times are exact because virtual time is an integer number
-of microseconds.  The space does not close (time grows, EWMA floats), so the
-stated bound is the depth.
+State key (dedup): 128-bit digest of the *complete* behaviour-relevant concrete
+state: all fields of the recovery object, of the controller and of its RTT
+monitor (generic `vars()`, so new fields are picked up), per space the ordered
+tracked packets with all flags / size / exact sent time / fire count, largest
+acked, loss time, counters, plus the harness state (virtual time in integer
+microseconds, next packet numbers, discard flags, delivery history).  No
+rounding, no rank abstraction: two states with equal key are equal as far as
+any recovery code path can observe, hence have equal futures.  Excluded, with
+argument: the pacer (only written by the calls made here, `update_rate`
+overwrites it from (cwnd, srtt) and nothing reads it back into recovery or
+controller) and the receive-side fields of QuicPacketSpace (not touched).
+Absolute times are exact because virtual time is an integer number of
+microseconds.  The space does not close (time grows, EWMA floats), so the
+stated bound is the depth; within it every history is executed.
 
 Part (ii) (NetSim wire monitor, Retry / Version Negotiation restarts) is added
 by the lead: see the hook in run().
 """
+import array
 import hashlib
 import marshal
 import math
@@ -110,7 +118,6 @@ class World:
         self.algo = algo
         self.n = nspaces
         self.client = client
-        self.seed_len = 0
         self.now_us = T0_US
         self.next_pn = [0] * nspaces
         self.discarded = [False] * nspaces
@@ -450,28 +457,154 @@ def key_of(w):
 
 
 # ====================================================================== expand
-def expand(node):
-    key, blob, hist = node
-    ncap, max_depth = CFG["ncap"], CFG["max_depth"]
-    w0 = pickle.loads(blob)
-    last = len(hist) - w0.seed_len + 1 >= max_depth
-    out = []
-    local = set()
-    for lab in enabled(w0, ncap, CFG["sizes"], CFG["dts"]):
+_INTERN = {}
+
+
+def successors(key, hist):
+    """Execute every enabled transition of one state on the real code.
+
+    The state is rebuilt by replaying its history on fresh real objects (a few calls; the
+    resulting key must equal the recorded one), pickled once, and every transition runs on
+    its own private deep copy (pickle round trip) of that state.  Yields
+    (label, successor key or None, violation or None, outcome)."""
+    w0 = World(CFG["algo"], CFG["nspaces"], CFG["client"])
+    for lab in hist:
+        w0.apply(lab)
+    if key_of(w0) != key:
+        raise core.HarnessError("history replay diverged from the recorded state key: %r" % (hist,))
+    w0.viol = None
+    w0.ev = []
+    blob = pickle.dumps(w0, -1)
+    for lab in enabled(w0, CFG["ncap"], CFG["sizes"], CFG["dts"]):
+        lab = _INTERN.setdefault(lab, lab)  # shared objects pickle once per chunk
         w = pickle.loads(blob)  # private deep copy of the real objects
         viol, outcome = step(w, lab)
-        if viol is not None:
-            out.append((lab, None, None, viol, outcome))
-            continue
-        k = key_of(w)
-        if k == key or k in local:
-            out.append((lab, k, None, None, outcome))  # parent already holds this state
-            continue
-        local.add(k)
-        w.viol = None
-        w.ev = []
-        out.append((lab, k, b"" if last else pickle.dumps(w, -1), None, outcome))
+        outcome = _INTERN.setdefault(outcome, outcome)
+        k = None if viol is not None else key_of(w)
+        w.__dict__.clear()  # break the world <-> recovery reference cycle (no gc needed)
+        yield lab, k, viol, outcome
+    w0.__dict__.clear()
+
+
+def expand(node):
+    """explore.bfs-compatible expansion of one node (key, None, history)."""
+    key, _, hist = node
+    out = []
+    local = set()
+    for lab, k, viol, outcome in successors(key, hist):
+        if k is not None and (k == key or k in local):
+            k = None  # self-loop / same successor as an earlier label
+        elif k is not None:
+            local.add(k)
+        out.append((lab, k, None, viol, outcome))
     return out
+
+
+# ------------------------------------------------------------------ lean BFS
+# Same level-synchronous, parent-deduplicated BFS as explore.bfs (same node order, same
+# counts), with a compact worker -> parent protocol: per chunk of frontier states the worker
+# returns the transition count, the outcome set, the violations and only the successor keys
+# that are new within the chunk (16-byte digests joined into one bytes object + parent index
+# + label).  explore.bfs ships one 5-tuple per transition; in this sandbox fresh memory costs
+# ~100 us per page, which made the parent the bottleneck (16 workers no faster than 4).
+def _work(task):
+    cfg, keys, hists = task
+    try:
+        CFG.update(cfg)
+        ntrans = 0
+        outcomes = set()
+        viols = []
+        seen = set()
+        new_keys = []
+        new_idx = array.array("I")
+        new_labs = []
+        for i, hist in enumerate(hists):
+            key = keys[16 * i : 16 * i + 16]
+            for lab, k, viol, outcome in successors(key, hist):
+                ntrans += 1
+                outcomes.add(outcome)
+                if viol is not None:
+                    viols.append((i, lab, viol[0], viol[1]))
+                elif k != key and k not in seen:
+                    seen.add(k)
+                    new_keys.append(k)
+                    new_idx.append(i)
+                    new_labs.append(lab)
+        return ("ok", ntrans, outcomes, viols, b"".join(new_keys), new_idx.tobytes(), new_labs)
+    except BaseException as e:  # noqa
+        return ("err", "%s: %s\n%s" % (type(e).__name__, e, traceback.format_exc()))
+
+
+class LeanResult:
+    def __init__(self):
+        self.states = 0
+        self.transitions = 0
+        self.max_depth = 0
+        self.closed = False
+        self.capped = None
+        self.violations = []  # (sig, what, history), BFS order
+        self.outcomes = set()
+        self.samples = []
+
+
+def lean_bfs(pool, nworkers, cfg, init_key, prefix, max_depth):
+    res = LeanResult()
+    seen = {init_key}
+    parent = array.array("i", [-1])  # per stored state: index of its BFS parent
+    via = [None]  # per stored state: label of the transition from the parent
+    intern = {}
+
+    def history(i):
+        h = []
+        while i > 0:
+            h.append(via[i])
+            i = parent[i]
+        h.reverse()
+        return list(prefix) + h
+
+    frontier = [(0, init_key)]
+    res.states = 1
+    depth = 0
+    added = 1
+    while frontier and depth < max_depth:
+        store = depth + 1 < max_depth  # successors of the last level are only counted
+        n = max(1, min(1024, len(frontier) // (nworkers * 6)))
+        chunks = [frontier[i : i + n] for i in range(0, len(frontier), n)]
+        tasks = [
+            (cfg, b"".join(k for _, k in c), [tuple(history(i)) for i, _ in c]) for c in chunks
+        ]
+        results = pool.imap(_work, tasks) if pool is not None else map(_work, tasks)
+        nxt = []
+        for chunk, r in zip(chunks, results):
+            if r[0] != "ok":
+                raise core.HarnessError("bfs worker raised: " + r[1])
+            _, ntrans, outcomes, viols, keys, idx, labs = r
+            res.transitions += ntrans
+            res.outcomes |= outcomes
+            for i, lab, sig, what in viols:
+                res.violations.append((sig, what, history(chunk[i][0]) + [lab]))
+            idx = array.array("I", idx)
+            for j in range(len(labs)):
+                k = keys[16 * j : 16 * j + 16]
+                if k in seen:
+                    continue
+                seen.add(k)
+                if store:
+                    lab = labs[j]
+                    lab = intern.setdefault(lab, lab)
+                    parent.append(chunk[idx[j]][0])
+                    via.append(lab)
+                    nxt.append((len(via) - 1, k))
+                    if len(res.samples) < 3 and depth >= 2:
+                        res.samples.append(history(len(via) - 1))
+        depth += 1
+        added = len(seen) - res.states
+        if added:
+            res.max_depth = depth
+        res.states = len(seen)
+        frontier = nxt
+    res.closed = added == 0
+    return res
 
 
 # ======================================================================= seeds
@@ -521,42 +654,41 @@ def plan(tier):
             ("reno.1sp.server.alt.seed2", "reno", 1, S, "alt", 5, 4, r2),
             ("cubic.1sp.server.sizes", "cubic", 1, S, SIZES, 4, 4, []),
             ("cubic.1sp.server.alt", "cubic", 1, S, "alt", 4, 6, []),
-            ("cubic.1sp.server.alt.seed1", "cubic", 1, S, "alt", 4, 4, c1),
+            ("cubic.1sp.server.alt.seed1", "cubic", 1, S, "alt", 4, 5, c1),
             ("reno.2sp.server.alt", "reno", 2, S, "alt", 4, 5, []),
             ("cubic.2sp.server.alt", "cubic", 2, S, "alt", 4, 4, []),
             ("reno.3sp.client.alt", "reno", 3, C, "alt", 4, 4, []),
             ("cubic.3sp.client.alt", "cubic", 3, C, "alt", 4, 4, []),
         ]
     return [
-        ("reno.1sp.server.sizes", "reno", 1, S, SIZES, 5, 6, []),
+        ("reno.1sp.server.sizes", "reno", 1, S, SIZES, 5, 5, []),
         ("reno.1sp.server.alt", "reno", 1, S, "alt", 5, 7, []),
         ("reno.1sp.server.alt.seed2", "reno", 1, S, "alt", 6, 5, r2),
         ("reno.1sp.server.alt.seed3", "reno", 1, S, "alt", 7, 5, r3),
         ("reno.1sp.client.alt", "reno", 1, C, "alt", 5, 6, []),
         ("cubic.1sp.server.sizes", "cubic", 1, S, SIZES, 5, 5, []),
         ("cubic.1sp.server.alt", "cubic", 1, S, "alt", 5, 7, []),
-        ("cubic.1sp.server.alt.seed1", "cubic", 1, S, "alt", 5, 5, c1),
+        ("cubic.1sp.server.alt.seed1", "cubic", 1, S, "alt", 5, 6, c1),
         ("cubic.1sp.client.alt", "cubic", 1, C, "alt", 5, 6, []),
-        ("reno.2sp.server.alt", "reno", 2, S, "alt", 5, 6, []),
+        ("reno.2sp.server.alt", "reno", 2, S, "alt", 5, 5, []),
         ("cubic.2sp.server.alt", "cubic", 2, S, "alt", 5, 5, []),
         ("reno.3sp.client.alt", "reno", 3, C, "alt", 5, 5, []),
-        ("reno.3sp.server.alt", "reno", 3, S, "alt", 5, 5, []),
         ("cubic.3sp.client.alt", "cubic", 3, C, "alt", 5, 5, []),
     ]
 
 
-def run_part(ctx, spec):
+def run_part(ctx, spec, pool):
     name, algo, nspaces, client, sizes, ncap, depth, prefix = spec
-    CFG.update(ncap=ncap, max_depth=depth, sizes=sizes, dts=dts_for(algo))
+    cfg = dict(ncap=ncap, max_depth=depth, sizes=sizes, dts=dts_for(algo), algo=algo,
+               nspaces=nspaces, client=client)
+    CFG.update(cfg)
     base = {"algo": algo, "nspaces": nspaces, "client": client}
     w, bad = build(algo, nspaces, client, prefix)
     if bad is not None:
         i, (sig, what) = bad
         ctx.violation(dict(sig, cc=algo), what, dict(base, history=prefix[: i + 1]))
         return None
-    w.seed_len = len(prefix)
-    init = [(key_of(w), pickle.dumps(w, -1), list(prefix))]
-    res = explore.bfs(init, expand, max_depth=depth, workers=core.NCPU, name="c08." + name)
+    res = lean_bfs(pool, core.NCPU, cfg, key_of(w), list(prefix), depth)
     floor = sum(1 for o in res.outcomes if len(o) > 5 and o[5])
     lossy = sum(1 for o in res.outcomes if len(o) > 3 and o[3])
     ctx.part(
@@ -597,12 +729,22 @@ def run_part(ctx, spec):
 def run_component(ctx):
     specs = plan(ctx.tier)
     floor = {}
-    for spec in specs:
-        if ctx.only_parts and spec[0] not in ctx.only_parts:
-            continue
-        f = run_part(ctx, spec)
-        if f is not None:
-            floor[spec[1]] = floor.get(spec[1], 0) + f
+    pool = None
+    if core.NCPU > 1:
+        import multiprocessing
+
+        pool = multiprocessing.get_context("fork").Pool(core.NCPU)
+    try:
+        for spec in specs:
+            if ctx.only_parts and spec[0] not in ctx.only_parts:
+                continue
+            f = run_part(ctx, spec, pool)
+            if f is not None:
+                floor[spec[1]] = floor.get(spec[1], 0) + f
+    finally:
+        if pool is not None:
+            pool.terminate()
+            pool.join()
     if not ctx.only_parts and not ctx.violations:
         for algo in ("reno", "cubic"):
             if not floor.get(algo):
